@@ -554,7 +554,7 @@ def cd7(ctx):
 # ------------------------------------------------------------------------------------------------
 # TAINT1
 
-SINK_RE = r'(::split_at(_mut|_checked|_unchecked)?$|Vec::<.*>::(with_capacity|reserve|reserve_exact|resize|set_len)$|::copy_from_slice$|VecDeque::<.*>::(with_capacity|reserve)$|::repeat$)'
+SINK_RE = r'(::split_at(_mut|_unchecked|_mut_unchecked)?$|Vec::<.*>::(with_capacity|reserve|reserve_exact|resize|set_len)$|::copy_from_slice$|VecDeque::<.*>::(with_capacity|reserve)$|::repeat$)'
 INDEX_RE = r'(ops::Index|ops::IndexMut)<std::ops::Range'
 
 
@@ -621,6 +621,14 @@ def taint1(ctx):
                             # tainted < / <= other  -> true edge is safe ; tainted > / >= other -> false edge is safe
                             safe, unsafe = (e[0], e[1]) if op in ('Lt', 'Le') else (e[1], e[0])
                             guards.append((safe, unsafe))
+            # checked slicing: `x.split_at_checked(len)` / `x.get(..len)` -- the Some edge of the match on its result is a safe edge
+            CHECKED_RE = r'::(split_at_checked|split_at_mut_checked|get|get_mut|split_first_chunk|first_chunk|checked_sub)$'
+            for c2 in b.calls:
+                if re.search(CHECKED_RE, c2.name) and any(fl.op_tainted(a, tnt) for a in c2.args[1:]) and c2.dest is not None:
+                    for (bj, pl, adt, edges) in b.discr_switches():
+                        if adt and adt.endswith('Option') and 'Some' in edges and 'None' in edges:
+                            if any(o[0] == 'call' and o[1] is c2 for o in b.trace_local(pl['l'])):
+                                guards.append((edges['Some'], edges['None']))
             for s in sinks:
                 n += 1
                 seen += 1
@@ -782,6 +790,33 @@ def cd8(ctx):
                     r_ = content_root(op_local(a))
                     if r_ is not None:
                         content_params.add(r_)
+        # Buf-typed payloads (no slice parameter to root at): the bytes handed out by Buf::chunk are what must be appended
+        chunk_calls = [cs for cs in b.calls if method_name(cs.name) == 'chunk' and 'Buf' in cs.name]
+        if chunk_calls:
+            def chunk_root(l, depth=0):
+                if l is None or depth > 10:
+                    return False
+                for (p_, kind, data) in b.defs.get(l, []):
+                    if kind == 'call' and method_name(data.name) == 'chunk' and 'Buf' in data.name:
+                        return True
+                    if kind == 'call' and method_name(data.name) in ('deref', 'as_ref', 'as_slice', 'borrow'):
+                        if chunk_root(data.arg_local(0), depth + 1):
+                            return True
+                    if kind == 'assign' and not data['place']['p']:
+                        rv = data['rv']
+                        pl = rv['place'] if rv['k'] == 'ref' else (rv['op']['place'] if rv['k'] in ('use', 'cast') and rv['op']['k'] in ('copy', 'move') else None)
+                        if pl is not None and all(e['k'] == 'deref' for e in pl['p']) and chunk_root(pl['l'], depth + 1):
+                            return True
+                return False
+            n += 1
+            appended = False
+            for cs in b.calls:
+                al = cs.arg_local(0)
+                if al is not None and b.local_ty(al).startswith('&mut std::vec::Vec<u8>') and re.search(r'Vec::<u8>::(extend_from_slice|extend|append)$|Extend<.*>>::extend', cs.name):
+                    if any(chunk_root(op_local(a)) for a in cs.args[1:]):
+                        appended = True
+            ctx.check(appended, '%s:buf-content' % b.path, b.span, 'the bytes handed out by Buf::chunk are appended to the output buffer',
+                      'the payload bytes (Buf::chunk) are never appended to the output buffer, only values derived from them (e.g. the length): the WAL entry would announce a payload it does not contain')
         for i in range(1, b.arg_count + 1):
             if i in outs:
                 continue
@@ -877,6 +912,171 @@ def cd9(ctx):
                       'the roll-over test is `offset + len %s FILE_NUM_BYTES`: a write that would exactly fill the file rolls early and leaves a zero tail, which the reader takes for the end of the log' % {'Ge': '>=', 'Lt': '<'}.get(c['op'], c['op']))
     if n < 2:
         ctx.missing('predicates', 'expected the frame-fits test of the reader and the file-full test of the writer')
+
+
+@rule('CD10', ['C01', 'C07'], floor=2, template='guard-exactness')
+def cd10(ctx):
+    """A decoded length is rejected only when it EXCEEDS what is left: a field that ends exactly at the
+    end of the entry (empty payload, last record of a batch) is what the encoder produces."""
+    n = 0
+    for b in ctx.f.bodies.values():
+        if b.generic_dup() or b.is_test or b.is_closure:
+            continue
+        if not (b.path.startswith('record::') or b.path.startswith('<record::')):
+            continue
+        fl = flow_of(b)
+        for (t, e, cs) in int_codec_calls(b, 'from'):
+            tnt0 = fl.forward(set(fl.call_result_nodes(cs)))
+            casts = [st for bi, blk in enumerate(b.blocks) if b.live[bi] for st in blk['stmts'] if st['k'] == 'assign' and st['rv']['k'] == 'cast' and st['rv']['ty'] == 'usize' and fl.op_tainted(st['rv']['op'], tnt0) and not st['place']['p']]
+            for st in casts:
+                src = st['place']['l']
+                tnt = fl.forward({('l', src)}, skip_mem=True)
+                # checked slicing (get / split_at_checked / split_off-style Option APIs) is exact by construction
+                for c2 in b.calls:
+                    if re.search(r'::(split_at_checked|split_at_mut_checked|get|split_first_chunk|first_chunk)$', c2.name) and any(fl.op_tainted(a, tnt) for a in c2.args[1:]):
+                        n += 1
+                        ctx.check(True, '%s:%s:checked#%s' % (b.path, b.debug_names.get(src, '_%d' % src), method_name(c2.name)), where(b, c2.point), 'decoded length used through a checked slicing API', '')
+                for bj, blk in enumerate(b.blocks):
+                    if not b.live[bj] or blk['term']['k'] != 'switch':
+                        continue
+                    c = b.switch_cond(bj)
+                    if not (c and c['kind'] == 'bool'):
+                        continue
+                    for o in c['origin']:
+                        if not (o[0] == 'rv' and o[2]['k'] == 'binop' and o[2]['op'] in ('Lt', 'Le', 'Gt', 'Ge')):
+                            continue
+                        ta, tb = fl.op_tainted(o[2]['a'], tnt), fl.op_tainted(o[2]['b'], tnt)
+                        if ta == tb:
+                            continue
+                        side_t, side_o = (o[2]['a'], o[2]['b']) if ta else (o[2]['b'], o[2]['a'])
+                        # exactness is only decidable when both sides are plain: the decoded length itself against a slice length
+                        lt = expr_leaves(b, side_t)
+                        lo = expr_leaves(b, side_o)
+                        def arith(op_):
+                            if op_['k'] not in ('copy', 'move'):
+                                return False
+                            for (p_, kind, data) in b.defs.get(op_['place']['l'], []):
+                                if kind == 'assign' and data['rv']['k'] == 'binop':
+                                    return True
+                            return False
+                        if arith(side_t) or arith(side_o):
+                            continue
+                        is_len = len(lo) == 1 and lo[0][0] == 'call' and method_name(lo[0][1].name) == 'len'
+                        if not is_len or not any(x[0] == 'call' and x[1] is cs for x in lt):
+                            continue
+                        op = o[2]['op']
+                        if tb:
+                            op = {'Lt': 'Gt', 'Gt': 'Lt', 'Le': 'Ge', 'Ge': 'Le'}[op]
+                        n += 1
+                        nm = b.debug_names.get(src, '_%d' % src)
+                        ctx.check(op in ('Le', 'Gt'), '%s:%s:fits' % (b.path, nm), where(b, b.pstart[bj]), 'decoded length `%s` rejected iff it exceeds the bytes left (equality accepted)' % nm,
+                                  'the bounds check of decoded length `%s` also rejects a length EQUAL to the bytes left: an entry whose last field ends exactly at the end of the buffer (empty payload, last record of a batch) - which is what the encoder writes - would be dropped as corrupt' % nm)
+    if n < 2:
+        ctx.missing('guards', 'expected the queue-name length check and the batch item length check, found %d' % n)
+
+
+APPEND_RE = r'Vec::<u8>::(push|extend_from_slice|extend|append|insert|resize|extend_from_within)$|Extend<.*>>::extend|BufMut>::put'
+CLEAR_RE = r'Vec::<u8>::clear$'
+FRESH_RE = r'Vec::<u8>::(new|with_capacity)$|Default>::default$'
+
+
+def buf_id(b, l, depth=0):
+    """Identity of the Vec a `&mut Vec<u8>` local points to: ('param', i, path) | ('local', l, path) | None."""
+    if l is None or depth > 12:
+        return None
+    ds = b.defs.get(l, [])
+    if not ds:
+        return ('param', l, ()) if 1 <= l <= b.arg_count else ('local', l, ())
+    if len(ds) != 1:
+        return ('local', l, ())
+    (p, kind, data) = ds[0]
+    if kind == 'assign' and not data['place']['p']:
+        rv = data['rv']
+        pl = rv['place'] if rv['k'] == 'ref' else (rv['op']['place'] if rv['k'] in ('use', 'cast') and rv['op']['k'] in ('copy', 'move') else None)
+        if pl is not None:
+            path = tuple(e.get('name') or str(e.get('i')) for e in pl['p'] if e['k'] == 'field')
+            if not path and all(e['k'] == 'deref' for e in pl['p']):
+                return buf_id(b, pl['l'], depth + 1)
+            root = buf_id(b, pl['l'], depth + 1) if b.defs.get(pl['l']) and b.local_ty(pl['l']).startswith('&') else None
+            if root is not None:
+                return (root[0], root[1], root[2] + path)
+            return (('param' if 1 <= pl['l'] <= b.arg_count and not b.defs.get(pl['l']) else 'local'), pl['l'], path)
+    return ('local', l, ())
+
+
+def _vec_args(b, cs):
+    """indices of arguments of call cs that are `&mut Vec<u8>`"""
+    out = []
+    for i, a in enumerate(cs.args):
+        l = op_local(a)
+        if l is not None and b.local_ty(l).startswith('&mut std::vec::Vec<u8>'):
+            out.append(i)
+    return out
+
+
+def encoder_fills(ctx, b, ident, memo, depth=0):
+    """[(point, kind, callsite)] of the places where body b appends to buffer `ident` before having reset it:
+    direct appends and calls into callees that fill without resetting.  kind in ('append', 'call')."""
+    key = (b.id, ident)
+    if key in memo:
+        return memo[key]
+    memo[key] = []      # recursion guard
+    clears = [cs.point for cs in b.calls if re.search(CLEAR_RE, cs.name) and buf_id(b, cs.arg_local(0)) == ident]
+    out = []
+    for cs in b.calls:
+        if re.search(CLEAR_RE, cs.name):
+            continue
+        hit = None
+        if re.search(APPEND_RE, cs.name) and buf_id(b, cs.arg_local(0)) == ident:
+            hit = 'append'
+        elif cs.node is not None and depth < 6:
+            cb = ctx.f.bodies[cs.node]
+            for i in _vec_args(b, cs):
+                if buf_id(b, op_local(cs.args[i])) == ident and i + 1 <= cb.arg_count:
+                    if encoder_fills(ctx, cb, ('param', i + 1, ()), memo, depth + 1):
+                        hit = 'call'
+        if hit and not any(b.dominates(c, cs.point) for c in clears):
+            out.append((cs.point, hit, cs))
+    memo[key] = out
+    return out
+
+
+@rule('CD11', ['C01', 'C07'], floor=2, template='reset-dominates-fill')
+def cd11(ctx):
+    """A reused scratch buffer is emptied before an entry is encoded into it: on every path from taking the
+    long-lived buffer (a struct field, mem::take of one) to the first byte appended there is a clear()."""
+    n = 0
+    memo = {}
+    for b in ctx.f.bodies.values():
+        if b.generic_dup() or b.is_test or b.is_closure:
+            continue
+        for cs in b.calls:
+            if cs.node is None:
+                continue
+            cb = ctx.f.bodies[cs.node]
+            if not (cb.path.startswith('record::') or cb.path.startswith('<record::')):
+                continue
+            for i in _vec_args(b, cs):
+                ident = buf_id(b, op_local(cs.args[i]))
+                if ident is None or (ident[0] == 'param' and not ident[2] and b.local_ty(ident[1]).startswith('&mut std::vec::Vec<u8>')):
+                    continue    # the caller's own output parameter: its callers carry the obligation
+                # freshly created local vectors need no reset
+                if ident[0] == 'local' and not ident[2]:
+                    ds = b.defs.get(ident[1], [])
+                    if ds and all(kind == 'call' and re.search(FRESH_RE, data.name) for (p_, kind, data) in ds):
+                        continue
+                n += 1
+                fills = encoder_fills(ctx, cb, ('param', i + 1, ()), memo) if i + 1 <= cb.arg_count else []
+                clears = [c.point for c in b.calls if re.search(CLEAR_RE, c.name) and buf_id(b, c.arg_local(0)) == ident]
+                ok = not fills or any(b.dominates(c, cs.point) for c in clears)
+                what = '.'.join(ident[2]) if ident[2] else b.debug_names.get(ident[1], '_%d' % ident[1])
+                w = ''
+                if fills:
+                    w = ' (first unreset fill: %s)' % where(cb, fills[0][0])
+                ctx.check(ok, '%s:%s->%s' % (b.path, what, cb.path.split('::')[-1]), where(b, cs.point), 'reused buffer `%s` is cleared before %s fills it' % (what, cb.path.split('::')[-1]),
+                          'the reused buffer `%s` is handed to %s, which appends to it without anyone having cleared it%s: the bytes of the previous entry would be written again in front of the new one' % (what, cb.path, w))
+    if n < 2:
+        ctx.missing('buffers', 'expected the record writer scratch buffer and the batch spare buffer, found %d' % n)
 
 
 @rule('WR1', ['C07', 'C12'], floor=3, template='loop-progress')
